@@ -330,8 +330,9 @@ func ruleInvolvedPaths(w *core.World, r *core.Report, low *ssa.Function, rule st
 		single := true
 		joinedOld, joinedNew := false, false
 		seen := map[ssa.Value]bool{}
-		var visit func(v ssa.Value, d int)
-		visit = func(v ssa.Value, d int) {
+		perIteration := false
+		var visit func(v ssa.Value, d int, base bool)
+		visit = func(v ssa.Value, d int, base bool) {
 			if d > 5 {
 				return
 			}
@@ -346,7 +347,7 @@ func ruleInvolvedPaths(w *core.World, r *core.Report, low *ssa.Function, rule st
 					// the nil a helper returns next to its error
 					continue
 				case ok && core.CalleeIs(c, "tree.PathSet.GetPaths"):
-					visit(core.CallRecv(c), d+1)
+					visit(core.CallRecv(c), d+1, base)
 					continue
 				case ok && core.CalleeIs(c, "tree.NewPathSet"):
 				case ok && core.CalleeIs(c, "tree.UpdateSlice.ToPathSet"):
@@ -377,6 +378,11 @@ func ruleInvolvedPaths(w *core.World, r *core.Report, low *ssa.Function, rule st
 				if acc == nil {
 					acc = c
 				}
+				// the set the read is made for must collect over ALL intents: a base set that is (re)made inside the
+				// per-intent loop holds the paths of the last intent only
+				if base && core.OnCycle(c) {
+					perIteration = true
+				}
 				// what is joined into this set before the read
 				for _, j := range core.CallsTo(low, "tree.PathSet.Join") {
 					if !core.HasOrigin(core.CallRecv(j), c) {
@@ -386,15 +392,15 @@ func ruleInvolvedPaths(w *core.World, r *core.Report, low *ssa.Function, rule st
 						continue
 					}
 					if ja := core.CallArgs(j); len(ja) == 1 {
-						visit(ja[0], d+1)
+						visit(ja[0], d+1, false)
 					}
 				}
 			}
 		}
 		if len(args) >= 2 {
-			visit(args[1], 0)
+			visit(args[1], 0, true)
 		}
-		r.Check(acc != nil && single, rule, core.Site(low, "involved paths accumulator"), w.InstrPos(H), "the involved paths the alternatives are read for must be path sets built from the content of the transaction's intents (tree.NewPathSet joined with them, or Transaction.GetPathSet)")
+		r.Check(acc != nil && single && !perIteration, rule, core.Site(low, "involved paths accumulator"), w.InstrPos(H), "the involved paths the alternatives are read for must be path sets built from the content of ALL the transaction's intents (one tree.NewPathSet made before the per-intent loop and joined with them, or Transaction.GetPathSet): not a set that is re-made per intent")
 		if acc != nil {
 			r.Check(joinedOld, rule, core.Site(low, "involved paths include old content"), w.InstrPos(H), "paths of the owner's previous content must be joined into the involved paths (a shrunk/deleted intent uncovers shadowed values there)")
 			r.Check(joinedNew, rule, core.Site(low, "involved paths include new content"), w.InstrPos(H), "paths of the new content must be joined into the involved paths")
